@@ -17,7 +17,8 @@ MANIFEST = dict(
     text='Decides, for every width and every primitive, that the bits written are the TL-B encoding (width, signedness, order, minimal '
          'var-int length prefix, address layouts incl. anycast), that load returns the stored symbol and consumes exactly its bits, '
          'that preload returns what load returns without consuming, for maybe-refs/dicts/snake chains as well. Values are symbolic; '
-         'the conversion int<->bits itself is the modelled library contract (bitarray.util.int2ba/ba2int).',
+         'the conversion int<->bits itself is the modelled library contract (bitarray.util.int2ba/ba2int).'
+         ' Default-length string reads, snake strings with and without the prefix byte and preload_ref(k) at every cursor position are covered.',
     note='trusted: interpreter, model of bitarray/int2ba/ba2int. Not decided: UTF-8 handling, library behaviour.',
     design_ref='DESIGN.md section 4 C06')
 
